@@ -719,7 +719,7 @@ func (x *Exec) run(fn *ssa.Function, args []Value, st *State, pcIn *Term) (Value
 					mv.F[1] = b.ConstArr(Arr(ks, vs), x.zeroV(mt.Elem()).(*Term))
 				}
 				cur.h[o] = mv
-				vals[i] = &MapV{Obj: o, Nil: b.False(), T: mt}
+				vals[i] = &MapV{Obj: o, Nil: b.False(), T: mt, Fresh: b.True()}
 			case *ssa.Lookup:
 				vals[i] = x.lookup(i, get, cur, pc)
 			case *ssa.MapUpdate:
@@ -917,6 +917,10 @@ func (x *Exec) run(fn *ssa.Function, args []Value, st *State, pcIn *Term) (Value
 		rst = &State{h: nh, facts: meetFacts(rst.facts, e.st.facts)}
 		if rv != nil {
 			rv = x.iteV(e.cond, retVals[k], rv)
+			for o, v := range x.pendingObjs {
+				rst.h[o] = v
+				delete(x.pendingObjs, o)
+			}
 		}
 	}
 	if rst == nil {
